@@ -94,6 +94,10 @@ def run(repo, rep, tier):
                    ("skipped late (after higher fields were read)" if late else "never accounted for")
                    + ": every later field is misplaced when this bit is set",
                    key=f"C04.R1@decoder:{b:#x}:unaccounted")
+    for m, adv, node in dec.multi_bit:
+        rep.ob("C04.R1", node, f"`if flags & {m:#x}` advances the offset by a constant {adv}", False,
+               f"the test is true when any of the bits {[hex(1 << i) for i in range(32) if m >> i & 1]} is set but the advance is the same: "
+               "a record carrying only one of those fields shifts every later field", key=f"C04.R1@decoder:multibit{m:#x}")
     for bits, node in dec.late_skips:
         rep.ob("C04.R1", node, f"late skip of {[hex(b) for b in bits]}", False,
                "fields are skipped after higher-numbered fields have been read, not in place",
@@ -273,6 +277,8 @@ VARIANTS = [
     M("decoder-string-id-short", "cell.py",
       "storage_flags._string_id = unpack(\"<i\", buffer[offset : offset + 4])[0]",
       "storage_flags._string_id = unpack(\"<h\", buffer[offset : offset + 2])[0]", "C04.R1"),
+    M("decoder-merged-skip", "cell.py", "        if flags & 0x80:\n            # cond_style_id skipped\n            offset += 4\n        if flags & 0x100:\n            # cond_rule_style_id skipped\n            offset += 4\n",
+      "        if flags & 0x180:\n            offset += 8\n", "C04.R1"),
     M("decoder-flags-word-moved", "cell.py", "flags = unpack(\"<i\", buffer[8:12])[0]", "flags = unpack(\"<i\", buffer[4:8])[0]", "ANALYSIS-ERROR"),
     T("decoder-table-driven", "cell.py", _TABLE_OLD, _TABLE_NEW),
     M("decoder-table-driven-misordered", "cell.py", _TABLE_OLD, _TABLE_BAD, "C04.R1"),
